@@ -331,101 +331,60 @@ theorem decValueBytes_enc (v : Value) (h : ValueOk v) (hw : Cbor.WF (itemValue v
 
 /-! ### Python `==` on the result
 
-`Value.__eq__` compares the coins and `MultiAsset.__eq__` the stored dicts (`len` and entry by entry): it does NOT
-normalise.  So the decoded value is `==` to the normalised original, and `==` to the original itself exactly when the
-original stores no zero quantity and no empty policy. -/
+`Value.__eq__` / `MultiAsset.__eq__` / `Asset.__eq__` compare contents component-wise (an absent name counts as 0, an
+absent policy as an empty `Asset`; `Value.eq_iff`, Proofs/Value.lean).  Normalising and sorting do not change the
+content of a well-formed bundle, so the decoded value is `==` to the original — stored zeros and empty policies
+included. -/
 
-theorem asset_eq_of_perm (x y : Asset) (hp : x.Perm y) (hw : Dict.WF y) : Asset.eq x y = true := by
-  unfold Asset.eq
-  simp only [Bool.and_eq_true, beq_iff_eq, List.all_eq_true]
-  refine ⟨hp.length_eq, ?_⟩
-  intro q hq
-  have := (Dict.mem_iff_getD y q.1 q.2 0 hw).1 (hp.mem_iff.1 hq)
-  exact ⟨this.1, this.2.symm⟩
+theorem getD_perm {ν : Type} (a b : List (Bytes × ν)) (hp : a.Perm b) (ha : Dict.WF a) (k : Bytes) (d : ν) :
+    Dict.getD a k d = Dict.getD b k d := by
+  have hb : Dict.WF b := wf_of_perm hp.symm ha
+  cases hh : Dict.has a k with
+  | true =>
+    have hm : (k, Dict.getD a k d) ∈ a := (Dict.mem_iff_getD a k _ d ha).2 ⟨hh, rfl⟩
+    exact ((Dict.mem_iff_getD b k _ d hb).1 (hp.mem_iff.1 hm)).2.symm
+  | false =>
+    have hbk : Dict.has b k = false := by
+      cases hb' : Dict.has b k with
+      | false => rfl
+      | true =>
+        have h1 := (Dict.has_iff_mem b k).1 hb'
+        have h2 : k ∈ Dict.keys a := by
+          unfold Dict.keys at h1 ⊢
+          exact ((hp.map (·.1)).mem_iff).2 h1
+        have := (Dict.has_iff_mem a k).2 h2
+        rw [hh] at this; exact absurd this (by decide)
+    rw [Dict.has_false_getD _ _ _ hh, Dict.has_false_getD _ _ _ hbk]
 
-theorem ma_eq_prim_normalize (m : MultiAsset) (hw : MultiAsset.WF m) :
-    MultiAsset.eq (primMultiAsset m) (MultiAsset.normalize m) = true := by
+theorem qty_primAsset (a : Asset) (hw : Dict.WF a) (n : Bytes) : Asset.qty (primAsset a) n = Asset.qty a n := by
+  unfold primAsset Asset.qty
+  rw [getD_perm _ _ (canonSort_perm _) (wf_of_perm (canonSort_perm _) (Asset.wf_normalize a hw))]
+  exact Asset.qty_normalize a n hw
+
+/-- the canonical form has the content of the original (for a well-formed bundle: distinct keys at both levels) -/
+theorem qty_primMultiAsset (m : MultiAsset) (hw : MultiAsset.WF m) (p n : Bytes) :
+    MultiAsset.qty (primMultiAsset m) p n = MultiAsset.qty m p n := by
   have hwn := MultiAsset.wf_normalize m hw
-  unfold MultiAsset.eq
-  simp only [Bool.and_eq_true, beq_iff_eq, List.all_eq_true]
-  constructor
-  · unfold primMultiAsset
-    simp [(canonSort_perm (MultiAsset.normalize m)).length_eq]
-  · intro x hx
-    obtain ⟨p, hp, rfl⟩ := (mem_primMultiAsset m x).1 hx
-    have hg := MultiAsset.getD_of_mem _ p.1 p.2 hwn hp
-    refine ⟨hg.1, ?_⟩
-    simp only [hg.2]
-    have hn : Asset.Normal p.2 := (MultiAsset.normal_normalize m p hp).2
-    apply asset_eq_of_perm _ _ _ (hwn.2 p hp)
-    unfold primAsset
-    rw [Asset.normalize_of_normal _ hn]
-    exact canonSort_perm _
-
-/-- **the decoded value is `==` to the normalised original** -/
-theorem value_eq_normalized (v : Value) (hw : MultiAsset.WF v.ma) :
-    Value.eq (normValue v) ⟨v.coin, MultiAsset.normalize v.ma⟩ = true := by
-  unfold Value.eq normValue
-  simp [ma_eq_prim_normalize v.ma hw]
-
-theorem filter_length_eq {α : Type} (p : α → Bool) (l : List α) (h : (l.filter p).length = l.length) :
-    l.filter p = l := by
-  induction l with
-  | nil => rfl
-  | cons a l ih =>
-    by_cases ha : p a = true
-    · simp only [List.filter_cons, ha, if_true, List.length_cons, Nat.add_right_cancel_iff] at h ⊢
-      rw [ih h]
-    · have := List.length_filter_le p l
-      simp only [List.filter_cons, ha, List.length_cons] at h
-      simp at h
-      omega
-
-/-- **… and `==` to the original itself iff the original is already normalised** (stores no zero quantity and no
-empty policy): under Python `==`, decode ∘ encode is the identity exactly on normalised values -/
-theorem value_eq_original_iff (v : Value) (hw : MultiAsset.WF v.ma) :
-    Value.eq (normValue v) v = true ↔ MultiAsset.normalize v.ma = v.ma := by
-  constructor
-  · intro h
-    unfold Value.eq normValue at h
-    simp only [Bool.and_eq_true, beq_self_eq_true, true_and] at h
-    unfold MultiAsset.eq at h
-    simp only [Bool.and_eq_true, beq_iff_eq, List.all_eq_true] at h
-    obtain ⟨hlen, hall⟩ := h
-    -- no policy is dropped
-    have hl1 : (primMultiAsset v.ma).length = (MultiAsset.normalize v.ma).length := by
-      unfold primMultiAsset; simp [(canonSort_perm (MultiAsset.normalize v.ma)).length_eq]
-    have hfil : MultiAsset.normalize v.ma = v.ma.map (fun p => (p.1, Asset.normalize p.2)) := by
-      unfold MultiAsset.normalize
-      apply filter_length_eq
-      have : (MultiAsset.normalize v.ma).length = v.ma.length := by rw [← hl1, hlen]
-      unfold MultiAsset.normalize at this
-      simpa using this
-    -- no quantity is dropped
-    have hin : ∀ p0 ∈ v.ma, Asset.normalize p0.2 = p0.2 := by
-      intro p0 h0
-      have hmem : (p0.1, Asset.normalize p0.2) ∈ MultiAsset.normalize v.ma := by
-        rw [hfil]; exact List.mem_map.2 ⟨p0, h0, rfl⟩
-      have hx : (p0.1, primAsset (Asset.normalize p0.2)) ∈ primMultiAsset v.ma :=
-        (mem_primMultiAsset v.ma _).2 ⟨_, hmem, rfl⟩
-      have h2 := (hall _ hx).2
-      simp only at h2
-      rw [(MultiAsset.getD_of_mem v.ma p0.1 p0.2 hw h0).2] at h2
-      unfold Asset.eq at h2
-      simp only [Bool.and_eq_true, beq_iff_eq] at h2
-      have hl := h2.1
-      rw [primAsset_length, Asset.normalize_of_normal _ (Asset.normal_normalize _)] at hl
-      unfold Asset.normalize at hl ⊢
-      exact filter_length_eq _ _ hl
-    rw [hfil]
-    conv => rhs; rw [← List.map_id v.ma]
-    apply List.map_congr_left
-    intro p0 h0
-    simp [hin p0 h0]
-  · intro h
-    have := value_eq_normalized v hw
-    rw [h] at this
+  rw [← MultiAsset.qty_normalize m p n hw, primMultiAsset_eq]
+  unfold MultiAsset.qty
+  have hX : Dict.WF ((MultiAsset.normalize m).map MultiAsset.canonInner) := by
+    unfold Dict.WF; rw [MultiAsset.keys_canonInner]; exact hwn.1
+  rw [getD_perm _ _ (canonSort_perm _) (wf_of_perm (canonSort_perm _) hX)]
+  have hg : Dict.getD ((MultiAsset.normalize m).map MultiAsset.canonInner) p [] =
+      primAsset (Dict.getD (MultiAsset.normalize m) p []) := by
+    have h0 : primAsset [] = [] := rfl
+    have := Dict.getD_map (MultiAsset.normalize m) primAsset p []
+    rw [h0] at this
     exact this
+  rw [hg]
+  exact qty_primAsset _ (MultiAsset.wf_getD _ p hwn) n
+
+/-- **the decoded value is `==` to the original**, whatever zeros and empty policies the original stores -/
+theorem value_eq_original (v : Value) (hw : MultiAsset.WF v.ma) : Value.eq (normValue v) v = true := by
+  rw [Value.eq_iff]
+  exact ⟨rfl, fun p n => qty_primMultiAsset v.ma hw p n⟩
+
+theorem maOk_wf (m : MultiAsset) (h : MaOk m) : MultiAsset.WF m := ⟨h.1, fun p hp => (h.2 p hp).2.1⟩
 
 /-! ## `TransactionOutput` -/
 
@@ -561,24 +520,31 @@ def NotBoth (o : Output A D N) : Prop := ¬ (o.datumHash.isSome = true ∧ o.dat
 
 instance (o : Output A D N) : Decidable (NotBoth o) := by unfold NotBoth; infer_instance
 
-theorem decodedOutput_fields (o : Output A D N) (hnb : NotBoth o) :
-    (decodedOutput o).address = o.address ∧ (decodedOutput o).amount = normValue o.amount ∧
-    (decodedOutput o).datumHash = o.datumHash ∧ (decodedOutput o).datum = o.datum ∧
-    (decodedOutput o).script = o.script ∧
-    (decodedOutput o).postAlonzo = (o.postAlonzo && o.datum.isNone && o.script.isNone) := by
+theorem mapForm_normOutput (o : Output A D N) : mapForm (normOutput o) = mapForm o := by
   obtain ⟨addr, amt, dh, dat, scr, pa⟩ := o
-  unfold NotBoth at hnb
-  cases dh <;> cases dat <;> cases scr <;> cases pa <;> simp_all [decodedOutput, mapForm]
+  cases dat <;> cases scr <;> cases pa <;> simp [normOutput, mapForm]
 
-/-- the flag of the decoded output differs from the original's exactly when the original carries an inline datum or a
-script while its flag is set (the map form is then implied; the decoder recomputes the flag as "no inline datum and
-no script") -/
-theorem decodedOutput_flag_ne_iff (o : Output A D N) (hnb : NotBoth o) :
-    (decodedOutput o).postAlonzo ≠ o.postAlonzo ↔
-      (o.postAlonzo = true ∧ (o.datum.isSome = true ∨ o.script.isSome = true)) := by
+theorem normOutput_idem (o : Output A D N) : normOutput (normOutput o) = normOutput o := by
+  obtain ⟨addr, amt, dh, dat, scr, pa⟩ := o
+  cases dat <;> cases scr <;> cases pa <;> simp [normOutput, mapForm]
+
+/-- a constructed output: its flag is set whenever it carries an inline datum or a script -/
+def Constructed (o : Output A D N) : Prop := normOutput o = o
+
+theorem constructed_normOutput (o : Output A D N) : Constructed (normOutput o) := normOutput_idem o
+
+theorem constructed_flag (o : Output A D N) (h : Constructed o) : mapForm o = o.postAlonzo := by
+  unfold Constructed normOutput at h
+  have := congrArg Output.postAlonzo h
+  simpa using this
+
+/-- decode ∘ encode on a constructed output that is not both: every field is the original's, the amount normalised -/
+theorem decodedOutput_constructed (o : Output A D N) (hc : Constructed o) (hnb : NotBoth o) :
+    decodedOutput o = { o with amount := normValue o.amount } := by
+  have hf := constructed_flag o hc
   obtain ⟨addr, amt, dh, dat, scr, pa⟩ := o
   unfold NotBoth at hnb
-  cases dh <;> cases dat <;> cases scr <;> cases pa <;> simp_all [decodedOutput, mapForm]
+  cases dh <;> cases dat <;> simp_all [decodedOutput]
 
 /-- outside `NotBoth`: the hash wins, the inline datum is not written and therefore not restored -/
 theorem decodedOutput_both (o : Output A D N) (h : o.datumHash.isSome = true) : (decodedOutput o).datum = Option.none := by
@@ -595,6 +561,11 @@ theorem itemOutput_decodedOutput (L : Leaves A D N) (o : Output A D N) :
 theorem decodedOutput_idem (o : Output A D N) : decodedOutput (decodedOutput o) = decodedOutput o := by
   obtain ⟨addr, amt, dh, dat, scr, pa⟩ := o
   cases dh <;> cases dat <;> cases scr <;> cases pa <;> simp [decodedOutput, mapForm, normValue_idem]
+
+theorem outputOk_normOutput (L : Leaves A D N) (o : Output A D N) (h : OutputOk L o) : OutputOk L (normOutput o) :=
+  ⟨h.amount, h.hash, h.datum, h.script⟩
+
+theorem notBoth_normOutput (o : Output A D N) (h : NotBoth o) : NotBoth (normOutput o) := h
 
 /-! ## `TransactionBody`: decode-time normalisation -/
 
